@@ -3,5 +3,16 @@ COMMON_NOTE = ('Trusted: Coq 8.16.1 kernel; no axioms declared by the developmen
                'allow-list in harness/common.py); the models are hand-written and tied to /repo/src by a correspondence check '
                '(extraction with ExtrOcamlBasic only + ocaml/driver.ml + harness generators/canonicalisers), whose strength is '
                'bounded by the generators; everything in /repo is modelled, not verified.')
-CHECKS = {}
+CHECKS = {
+ 'C02': {
+  'text': 'Theorems (Coq, unbounded: every box shape, every admissible or inadmissible request history): the reachable-state invariant '
+          '(NoDup, disjoint, within the box, active and active+candidate downward closed, candidates = admissible margin), rejection '
+          'leaves the state unchanged, exhaustion iff the box is full, is_downward_closed decides closedness. The model Misc.v is tied to '
+          'Component.activate_index/_neighbors/is_downward_closed by exact comparison of both sets after every request on exhaustive small '
+          'boxes and random histories; an independent oracle recomputes margin and closedness on the implementation.',
+  'design_ref': 'DESIGN.md section 5, C02',
+  'note': COMMON_NOTE + ' C02: requests are assumed to have the dimension of the box (wf_reqs); a wrong-length all-zero request is outside the model.',
+  'technique': 'Coq proof of a state-machine invariant by induction over request lists + extracted-model differential correspondence',
+ },
+}
 NOT_APPLICABLE = {}
